@@ -1,5 +1,5 @@
 (** C06 — Key-value store equals last-writer-wins replay of its log in causal order. *)
-From Orbit Require Import Spec.Statements Proofs.ReplayProofs Proofs.GlobalProofs Proofs.Glue Spec.GlobalExt Proofs.GlobalExtProofs.
+From Orbit Require Import Spec.Statements Proofs.ReplayProofs Proofs.GlobalProofs Proofs.Glue Spec.GlobalExt Proofs.GlobalExtProofs Proofs.StoreConcProofs.
 
 (** At every reachable state, every replica's key-value view represents (same lookup for
     every key, no duplicate keys, hence the same All()) the replay of the PUT/DEL
@@ -43,3 +43,23 @@ Theorem C06_kv_refines_replay_all_routes :
     represents (rkv rs) (kv_replay (values (rlog rs))).
 Proof. exact kv_view2. Qed.
 Print Assumptions C06_kv_refines_replay_all_routes.
+
+(** Local writes concurrent with the replication merge on one store ([Model/StoreConc.v],
+    index rebuilds serialised by the mutex around [BaseStore.updateIndex]): for every number of
+    writers, every list of batches and every schedule, the inputs of the successive rebuilds
+    of the index grow — which is the premise of the refinement result for the map that is
+    never reset — so the key-value map represents the replay of the entries the view reflects,
+    and once every thread is done these are all the entries of the log.  [listing] maps a
+    set of entry numbers to the listing ([oplog.Values()]) of those entries: any function
+    that is monotone for inclusion and yields well-formed PUT/DEL operations. *)
+Theorem C06_view_complete_under_concurrent_merge :
+  forall n batches sched (listing : list nat -> list entry),
+    (forall V V', incl V V' -> incl (listing V) (listing V')) ->
+    (forall V e, In e (listing V) -> kv_op_ok e = true) ->
+    let s := srun true sched (sinit n batches) in
+    let hist := map listing (sviews true sched (sinit n batches)) in
+    represents (kv_run hist) (kv_replay (last hist [])) /\
+    (sched <> [] -> last hist [] = listing (s_view s)) /\
+    (sall_done s -> forall x, In x (s_view s) <-> In x (s_log s)).
+Proof. exact storeconc_kv_replay. Qed.
+Print Assumptions C06_view_complete_under_concurrent_merge.
